@@ -18,7 +18,7 @@ one() {
   if [ -n "$others" ]; then echo "$id  MISSED by $prop, caught by: $others"; else echo "$id  MISSED"; fi
 }
 if [ $# -gt 0 ]; then SEL="$*"; else SEL=""; fi
-for d in "$V"/seeded/C*; do
+for d in "$V"/seeded/C*-${SEED_LETTERS:-?}; do
   id="$(basename "$d")"; prop="${id%-*}"
   if [ -n "$SEL" ]; then echo " $SEL " | grep -q " $prop " || continue; fi
   one "$d" &
